@@ -1,5 +1,7 @@
 SPECIFICATION Spec
-CONSTANTS Relock = FALSE
-INVARIANTS NoDeadlock
+CONSTANTS
+  Relock = FALSE
+  Recheck = TRUE
+INVARIANTS NoDeadlock NoCrash FlagHasPending
 PROPERTIES Lockset
 CHECK_DEADLOCK FALSE
